@@ -175,7 +175,8 @@ Finish ==
 Next == First \/ Step \/ Finish
 Spec == Init /\ [][Next]_vars
 
-TotalSteps == LET RECURSIVE Sum(_) Sum(k) == IF k = 0 THEN 0 ELSE Len(Runs[k].ev) + 1 + Sum(k - 1) IN Sum(Len(Runs))
+\* every run record carries the running total of steps (events + 1 per run) of its shard
+TotalSteps == IF Len(Runs) = 0 THEN 0 ELSE Runs[Len(Runs)].cum
 Consumed == TLCGet("stats").diameter - 1 = TotalSteps
 Done == IF r = Len(Runs) + 1 THEN PrintT(<<"DONE", Len(Runs), bad>>) ELSE TRUE
 =============================================================================
